@@ -20,6 +20,7 @@ EXTENDS Integers, Sequences, FiniteSets, TLC, Json, IOUtils, SequencesExt, MasaO
 
 VARIABLES reg, sel, live, status, dflt, memo, act, l,
           pairs,  \* history: reduction-pair label -> first value seen (C20)
+          hp,     \* observation: bytes the driver's allocator has handed out and not got back (0: no accounting)
           acc     \* history (ACCSTAT=1): <<solution, evaluator>> -> error of every judged result, in bits of
                   \* u_p * mag, per precision (C09: long double must not be limited to double accuracy)
 
@@ -58,14 +59,15 @@ M == INSTANCE Masa WITH Prec <- TPrec, Catalog <- Cat!Catalog, Build <- TBuild,
                         InitDflt <- TInitDflt, UseMemo <- ~Relaxed("MEMO"), EvalAccept <- TEvalAccept,
                         ArgsRegular <- TArgsRegular
 
-tvars == <<reg, sel, live, status, dflt, memo, act, l, pairs, acc>>
+tvars == <<reg, sel, live, status, dflt, memo, act, l, pairs, acc, hp>>
 
 Ev == Log[l]
 \* the observed outcome: the event itself, with the list-valued observations turned into sets
 Out(e) == [e EXCEPT !.tags = Range(e.tags)]
 OutW(e) == [e EXCEPT !.tags = Range(e.tags), !.warn = Range(e.warn)]
 
-IsEvent(op) == l <= Len(Log) /\ Ev.op = op /\ l' = l + 1
+IsEvent(op) == /\ l <= Len(Log) /\ Ev.op = op /\ l' = l + 1
+               /\ hp' = IF "heap" \in DOMAIN Ev THEN Ev.heap ELSE hp
 \* the hook counter must agree with the specification's heap after every call that returned or threw
 LiveBound(e) == IF Relaxed("LIVE") THEN TRUE ELSE e.live[1] = live'["d"] /\ e.live[2] = live'["ld"]
 
@@ -157,7 +159,7 @@ TNext == \/ TEval
 \* after exit(1) the process may only be followed by its fini record or a reset
 ExitedQuiet == status = "exited" => (l > Len(Log) \/ Log[l].op \in {"fini", "reset"})
 
-TInit0 == M!Init0 /\ l = 1 /\ pairs = <<>> /\ acc = <<>>
+TInit0 == M!Init0 /\ l = 1 /\ pairs = <<>> /\ acc = <<>> /\ hp = 0
 TSpec  == TInit0 /\ [][TNext]_tvars
 
 \* acceptance: every line consumed
@@ -177,4 +179,10 @@ FatalOnlyIfMisuse == M!FatalOnlyIfMisuse
 NoUseBeforeInit == M!NoUseBeforeInit
 ReinitFresh     == M!ReinitFresh
 SetThenGet      == M!SetThenGet
+\* C19: initialising the same handle with the same solution again releases exactly what it allocates --
+\* memory in use does not grow with further masa_init calls (and not with the size of the catalogue)
+HeapStable ==
+  [][(/\ act'.name = "init" /\ act.name = "init" /\ act'.p = act.p /\ act'.args = act.args
+      /\ M!Returned(act.o) /\ M!Returned(act'.o) /\ hp > 0 /\ ~Relaxed("LIVE"))
+     => hp' = hp]_tvars
 =============================================================================
